@@ -21,6 +21,10 @@ pub enum Case {
     FromSecretKey { sk: Hex },
     Derive { password: Hex, salt: Hex, ops: u64, mem: usize, #[serde(default)] cfg_hash_len: usize, #[serde(default)] cfg_salt_len: usize },
     Convert { seed: Hex, msg: Hex },
+    /// derive a key pair with the configuration carried by a parsed password-hash string (may be Argon2i)
+    DeriveFromParsed { password: Hex, salt: Hex, alg: i32, ops: u64, mem: usize },
+    /// the three Config presets must carry libsodium's constants (checked through their serialised form)
+    Presets,
 }
 
 fn a32(h: &[u8]) -> Result<[u8; 32], String> {
@@ -151,6 +155,32 @@ pub fn check(c: &Case) -> Result<(), String> {
             }
             Ok(())
         }
+        Case::DeriveFromParsed { password, salt, alg, ops, mem } => {
+            // obtain a Config the way a user can: parse a string, take its parts
+            let s = sodium::argon2_encoded(*alg, *ops as u32, (*mem / 1024) as u32, b"x", &[9u8; 16], 32).ok_or("harness: encode")?;
+            let (_, _, cfg) = PwHash::<Vec<u8>, Vec<u8>>::from_string(&s).map_err(|e| format!("from_string: {e:?}"))?.into_parts();
+            let kp: KeyPair<StackByteArray<32>, StackByteArray<32>> = PwHash::<Vec<u8>, Vec<u8>>::derive_keypair(&password.0, salt.0.clone(), cfg).map_err(|e| format!("derive_keypair: {e:?}"))?;
+            let want_sk = sodium::argon2_raw(*alg, *ops as u32, (*mem / 1024) as u32, password, salt, 32).ok_or("harness: reference argon2 refused")?;
+            let want_pk = sodium::scalarmult_base(&a32(&want_sk)?);
+            if kp.secret_key.as_slice() != want_sk || kp.public_key.as_slice() != want_pk {
+                return Err(format!("PwHash::derive_keypair with the configuration of a parsed {} string differs from crypto_pwhash({}) + crypto_scalarmult_base", if *alg == 1 { "$argon2i$" } else { "$argon2id$" }, if *alg == 1 { "ARGON2I13" } else { "ARGON2ID13" }));
+            }
+            Ok(())
+        }
+        Case::Presets => {
+            for (name, cfg, ops, mem) in [
+                ("interactive", Config::interactive(), 2u64, 67108864u64),
+                ("moderate", Config::moderate(), 3, 268435456),
+                ("sensitive", Config::sensitive(), 4, 1073741824),
+                ("default", Config::default(), 2, 67108864),
+            ] {
+                let v = serde_json::to_value(&cfg).map_err(|e| e.to_string())?;
+                if v["opslimit"].as_u64() != Some(ops) || v["memlimit"].as_u64() != Some(mem) || v["salt_length"].as_u64() != Some(16) || v["hash_length"].as_u64() != Some(32) || v["algorithm"] != "Argon2id13" {
+                    return Err(format!("Config::{name}() = {v} but libsodium's {name} preset is opslimit {ops}, memlimit {mem}, Argon2id, 16-byte salt"));
+                }
+            }
+            Ok(())
+        }
         Case::Convert { seed, msg } => {
             let s = a32(seed)?;
             let (epk, esk) = sodium::sign_seed_keypair(&s);
@@ -225,6 +255,24 @@ pub fn run(ctx: &mut Ctx) -> Result<(), Violation> {
         let pwl = f.below(64) as usize;
         cases.push(Case::Derive { password: Hex(f.bytes(pwl)), salt: Hex(f.bytes(saltlen)), ops: 1 + (i % 3) as u64, mem: 8192 + 1024 * (i % 57) + [0, 1, 512, 1023][i % 4], cfg_hash_len: [0usize, 32, 16, 33, 64, 128, 31][i % 7], cfg_salt_len: [0usize, 16, 8, 24, 64][i % 5] });
     }
+    cases.push(Case::Presets);
+    for i in 0..ctx.tier.pick(200usize, 4000) {
+        let mut f = Fill::new(seed, &format!("C13:parsed:{i}"));
+        let pwl = f.below(40) as usize;
+        cases.push(Case::DeriveFromParsed { password: Hex(f.bytes(pwl)), salt: Hex(f.bytes(8 + i % 24)), alg: 1 + (i % 2) as i32, ops: 1 + (i % 3) as u64, mem: 8192 + 1024 * (i % 40) });
+    }
+    if ctx.tier == Tier::Thorough {
+        // one real preset (64 MiB, t = 2): the key pair of Config::interactive() equals libsodium's
+        let mut f = Fill::new(seed, "C13:real");
+        let (pw, salt) = (f.bytes(12), f.bytes(16));
+        let kp: Result<KeyPair<StackByteArray<32>, StackByteArray<32>>, _> = PwHash::<Vec<u8>, Vec<u8>>::derive_keypair(&pw, salt.clone(), Config::interactive());
+        let want = sodium::pwhash(32, &pw, &salt.clone().try_into().unwrap(), 2, 67108864, sodium::ALG_ARGON2ID13);
+        ctx.ev.eval(1);
+        ctx.ev.class("derive-keypair-real-interactive-preset");
+        if kp.ok().map(|k| k.secret_key.to_vec()) != want {
+            return Err(Violation::new("C13", "keygen-real-preset", "derive_keypair(Config::interactive()) differs from crypto_pwhash(OPSLIMIT_INTERACTIVE, MEMLIMIT_INTERACTIVE)", json!({"password": hx(&pw), "salt": hx(&salt)})));
+        }
+    }
     ctx.par_each(&cases, |_, c, ev| {
         ev.eval(1);
         let (label, nt) = match c {
@@ -234,6 +282,8 @@ pub fn run(ctx: &mut Ctx) -> Result<(), Violation> {
             Case::FromSecretKey { sk } => ("from-secret-key", sk[0] & 7 != 0 || sk[31] & 0xc0 != 0x40),
             Case::Derive { .. } => ("derive-keypair", true),
             Case::Convert { .. } => ("ed25519-to-x25519", true),
+            Case::DeriveFromParsed { .. } => ("derive-keypair-with-parsed-config", true),
+            Case::Presets => ("config-presets", true),
         };
         ev.class(label);
         if nt {
@@ -247,6 +297,13 @@ pub fn run(ctx: &mut Ctx) -> Result<(), Violation> {
 }
 
 pub fn replay(v: &Violation) -> Result<(), String> {
+    if v.kind == "keygen-real-preset" {
+        let pw = hex::decode(v.case["password"].as_str().unwrap_or("")).map_err(|e| e.to_string())?;
+        let salt = hex::decode(v.case["salt"].as_str().unwrap_or("")).map_err(|e| e.to_string())?;
+        let kp: KeyPair<StackByteArray<32>, StackByteArray<32>> = PwHash::<Vec<u8>, Vec<u8>>::derive_keypair(&pw, salt.clone(), Config::interactive()).map_err(|e| format!("{e:?}"))?;
+        let want = sodium::pwhash(32, &pw, &salt.try_into().map_err(|_| "salt")?, 2, 67108864, sodium::ALG_ARGON2ID13).ok_or("harness")?;
+        return if kp.secret_key.as_slice() == want { Ok(()) } else { Err("real preset derive differs".into()) };
+    }
     let c: Case = from_case(&v.case)?;
     check(&c)
 }
